@@ -27,6 +27,10 @@ REG = {
     "heurpath": ("translate_heurpath", "translate", "C09_path_gen",
                  "harness/translate_heurpath.py + translate_path.py (generate_route, add_routes_better, make_feasible, get_sampled_key, get_routes of "
                  "PathBasedRoutingProblem; coq/theories/PyHeurPath.v; the random choice and the dummy names are oracles)"),
+    "arcroutes": ("translate_arcroutes", "translate", "C05_routes_gen",
+                  "harness/translate_arcroutes.py + translate_routes.py (ArcBasedRoutingProblem.get_routes; numpy meanings in coq/theories/PyRoutes.v)"),
+    "seqroutes": ("translate_seqroutes", "translate", "C07_routes_gen",
+                  "harness/translate_seqroutes.py + translate_routes.py (SequenceBasedRoutingProblem.get_routes; coq/theories/PyRoutes.v)"),
 }
 
 
